@@ -75,7 +75,8 @@ theorem addConsolidate_plain (w : Work g R fs c vc K n v)
     (hnm : g.consolidation = false ∨ v.isText = false ∨
       ∀ K' x, K = K' ++ [x] → x.value.isText = false) :
     g.addConsolidate n (g.lastChild c) none = (g, false) := by
-  unfold Forest.addConsolidate
+  rw [Forest.addConsolidate_eq_old_of_ne (by simpa using w.lastChild_ne) (by simp)]
+  unfold Forest.addConsolidateOld
   by_cases hc : g.consolidation = false
   · simp [hc]
   · have hc' : g.consolidation = true := by simpa using hc
